@@ -40,17 +40,36 @@ func astFieldOrigin(v ssa.Value, astPath string, depth int) (string, *types.Name
 		if f := x.Call.StaticCallee(); f != nil && core.FnPkg(f) != nil && core.FnPkg(f).Path() == "strings" && len(x.Call.Args) > 0 {
 			return astFieldOrigin(x.Call.Args[0], astPath, depth+1)
 		}
+		// a method of a local value type (QualifiedName.String()): the name comes from what the value was built from
+		if f := x.Call.StaticCallee(); f != nil && f.Signature.Recv() != nil && core.InModule(f) && len(x.Call.Args) > 0 {
+			return astFieldOrigin(x.Call.Args[0], astPath, depth+1)
+		}
+	case *ssa.Phi:
+		for _, e := range x.Edges {
+			if k, n := astFieldOrigin(e, astPath, depth+1); k != "" {
+				return k, n
+			}
+		}
 	case *ssa.BinOp:
 		if k, n := astFieldOrigin(x.X, astPath, depth+1); k != "" {
 			return k, n
 		}
 		return astFieldOrigin(x.Y, astPath, depth+1)
 	case *ssa.Alloc:
-		// local copy: follow what was stored into it
+		// local copy: follow what was stored into it (whole value, or field by field for a local struct)
 		for _, ref := range core.Referrers(x) {
 			if st, ok := ref.(*ssa.Store); ok && st.Addr == ssa.Value(x) {
 				if k, n := astFieldOrigin(st.Val, astPath, depth+1); k != "" {
 					return k, n
+				}
+			}
+			if fa, ok := ref.(*ssa.FieldAddr); ok {
+				for _, r2 := range core.Referrers(fa) {
+					if st, ok := r2.(*ssa.Store); ok && st.Addr == ssa.Value(fa) {
+						if k, n := astFieldOrigin(st.Val, astPath, depth+1); k != "" {
+							return k, n
+						}
+					}
 				}
 			}
 		}
@@ -115,9 +134,13 @@ func runC15(c *Ctx) {
 					var keys []ssa.Value
 					switch x := in.(type) {
 					case *ssa.MapUpdate:
-						keys = append(keys, x.Key)
+						keys = append(keys, x.Key, x.Value)
 					case *ssa.Call:
 						if f := x.Call.StaticCallee(); f != nil && f.Signature.Recv() != nil && core.NamedOf(f.Signature.Recv().Type()) == K && strings.HasPrefix(f.Name(), "add") {
+							keys = append(keys, x.Call.Args[1:]...)
+						}
+						// the same helper written as a plain function taking the collector first
+						if f := x.Call.StaticCallee(); f != nil && f.Signature.Recv() == nil && strings.HasPrefix(f.Name(), "add") && len(x.Call.Args) > 1 && core.NamedOf(x.Call.Args[0].Type()) == K {
 							keys = append(keys, x.Call.Args[1:]...)
 						}
 					}
